@@ -189,9 +189,26 @@ func (s *Session) call2(fr *Frame, cc *ssa.CallCommon, args []Val, st *State, in
 		s.note("call through a parameterless function value (configuration getter) in %s: assumed to have no effect, result arbitrary", fr.fn.String())
 		return s.freshResult(st, resT, "getter")
 	}
+	if s.topContract != nil && s.topContract.Options["pureparams"] != "" {
+		s.note("ASSUMED in %s (option pureparams): function values received as parameters (comparers, predicates) have no effect on the modelled state; their results are arbitrary", fr.fn.String())
+		return s.freshResult(st, resT, "fnparam")
+	}
+	if st.Reach.S == "false" {
+		return s.freshResult(st, resT, "dead") // statically unreachable: nothing happens
+	}
+	if os.Getenv("GOVC_DEBUG") != "" {
+		fmt.Fprintf(os.Stderr, "unknown fn value %s = %T %v in block %d; val=%+v\n", cc.Value.Name(), cc.Value, cc.Value, fr.curBlockIdx(), cv)
+	}
 	s.note("call through unknown function value in %s: heap havocked", fr.fn.String())
 	s.havocAll(st)
 	return s.freshResult(st, resT, "dyn")
+}
+
+func (fr *Frame) curBlockIdx() int {
+	if fr.curBlock != nil {
+		return fr.curBlock.Index
+	}
+	return -1
 }
 
 func (s *Session) freshResult(st *State, res *types.Tuple, hint string) Val {
@@ -777,6 +794,26 @@ func (s *Session) itemLocs(se *SpecEnv, item string) ([]modLoc, error) {
 		}
 		return out, nil
 	}
+	if allElems {
+		// a slice-typed value that is not a field (a parameter, a local): all elements of its backing array
+		if v, ok := func() (v Val, ok bool) {
+			defer func() {
+				if recover() != nil {
+					ok = false
+				}
+			}()
+			return s.evalSpec(se, e), true
+		}(); ok && v.Loc == nil && len(v.L) == 3 && v.Typ != nil {
+			if ut, isSl := v.Typ.Underlying().(*types.Slice); isSl {
+				eloc := &Loc{Kind: "A", TypeKey: typeKey(ut.Elem()), Ref: v.L[0], Typ: ut.Elem()}
+				names, sorts, _ := locHeaps(eloc)
+				for i := range names {
+					out = append(out, modLoc{heap: names[i], sort: sorts[i], ref: v.L[0]})
+				}
+				return out, nil
+			}
+		}
+	}
 	loc, err := s.evalAddr(se, e)
 	if err != nil {
 		return nil, err
@@ -1057,6 +1094,9 @@ func (s *Session) scanCall(fr *Frame, cc *ssa.CallCommon, mods map[string]string
 		}
 		if fn == nil {
 			if cc.Signature().Params().Len() == 0 && noRefs(cc.Signature().Results()) {
+				return false
+			}
+			if s.topContract != nil && s.topContract.Options["pureparams"] != "" {
 				return false
 			}
 			return true
